@@ -62,7 +62,7 @@ func guarded(f func() string) (out string) {
 	select {
 	case s := <-done:
 		return s
-	case <-time.After(20 * time.Second):
+	case <-time.After(4 * time.Second):
 		return "hang"
 	}
 }
@@ -88,6 +88,10 @@ func evRawHandler(c map[string]any) map[string]any {
 		}
 		return "ok"
 	})
+	if res["load"] == "hang" {
+		res["_exit"] = true
+		return res
+	}
 	for _, mode := range []string{"check", "checkshow", "open"} {
 		mode := mode
 		res[mode] = guarded(func() string {
@@ -121,6 +125,10 @@ func evRawHandler(c map[string]any) map[string]any {
 		}
 		return "ok"
 	})
+	if res["load"] == "hang" {
+		res["_exit"] = true
+		return res
+	}
 	res["decrypt"] = guarded(func() string {
 		_, err := eval.DecryptSecrets(context.Background(), "root", text, rawCrypter{})
 		if err != nil {
